@@ -2,7 +2,7 @@
    the reader (R2), the list decoder (L10), the dependency parser (D3) and possibility selection (M6b).
    Definitions only; the ordering theorems are TS2's, stated over [srcs_of_texts]. *)
 From Coq Require Import List Ascii String Bool Arith Lia.
-Require Import GS R2 L10 TS TS2.
+Require Import GS R2 R2u L10 TS TS2.
 Require A1 D3 M6 M6b.
 Import ListNotations.
 
@@ -23,7 +23,7 @@ Definition picked_of_field (arch : M6.arch str) (text : str) : option (list str)
 Record dsc := { d_source : str; d_src : src }.
 (* ParseDsc: the first paragraph; Source verbatim, Binary as a comma list of trimmed names, the three fields *)
 Definition dsc_of_text (arch : M6.arch str) (text : str) : option dsc :=
-  match read_all text with
+  match read_all_u text with
   | Some (p :: _) =>
       let f (k : string) := lookup (s k) (values p) in
       match picked_of_field arch (f "Build-Depends"%string), picked_of_field arch (f "Build-Depends-Arch"%string),
